@@ -9,7 +9,7 @@ import os
 from . import tm
 from .driver import Accounting, Task
 from .graph import build_paths
-from .instruments import Cancelled, ClsSource, AgenSource, Item, Recorder
+from .instruments import Cancelled, ClsSource, ClsSourceNoClose, AgenSource, Item, Recorder
 from .report import Verdict
 from .tlc import read_ndjson, run_tlc
 
@@ -44,7 +44,7 @@ class HSys:
             self.usrc = AgenSource(self.rec, 1, items)
             self.U = self.usrc.gen
         else:
-            cls = {"send": SendSource, "throwonly": ThrowOnlySource, "cls": ClsSource}[ukind]
+            cls = {"send": SendSource, "throwonly": ThrowOnlySource, "cls": ClsSource, "noclose": ClsSourceNoClose}[ukind]
             self.usrc = cls(self.rec, 1, items)
             self.U = self.usrc
         self.ukind = ukind
@@ -66,7 +66,7 @@ class HSys:
         u = self.usrc
         if self.ukind == "agen" and u.state == "new" and u.gen.ag_frame is None:
             return 1   # an async generator closed before it ever ran: its body cannot notice
-        return u.closes
+        return getattr(u, "closes", 0)
 
     def apply(self, a):
         op = a[0]
@@ -150,8 +150,8 @@ INVARIANT InOrder
 
 # (DataLen, MaxHandles, MaxOps, scope, borrow, usend, underlying kinds)
 TIERS = {
-    "C07": {"quick": [(2, 2, 4, False, True, False, ["cls", "agen", "throwonly"]), (2, 1, 4, False, True, True, ["send"])],
-            "thorough": [(3, 3, 5, False, True, False, ["cls", "agen", "throwonly"]), (3, 2, 5, False, True, True, ["send"]), (2, 2, 6, False, True, False, ["cls"])]},
+    "C07": {"quick": [(2, 2, 4, False, True, False, ["cls", "agen", "throwonly", "noclose"]), (2, 1, 4, False, True, True, ["send"])],
+            "thorough": [(3, 3, 5, False, True, False, ["cls", "agen", "throwonly", "noclose"]), (3, 2, 5, False, True, True, ["send"]), (2, 2, 6, False, True, False, ["cls"])]},
     "C08": {"quick": [(2, 2, 4, True, False, False, ["cls", "agen"]), (2, 2, 4, True, True, False, ["cls"])],
             "thorough": [(3, 3, 5, True, False, False, ["cls", "agen"]), (3, 3, 5, True, True, False, ["cls", "agen"]), (2, 2, 6, True, True, True, ["send"])]},
 }
